@@ -259,7 +259,7 @@ class Interp:
             r = self.prog.resolve(module, e.id)
             if r is not None:
                 return r
-            if e.id in ("bool", "len", "int", "str"):
+            if e.id in ("bool", "len", "int", "str", "next", "iter", "list", "tuple"):
                 return ("builtin", e.id)
             raise Undecided("name %s" % e.id)
         if isinstance(e, ast.Attribute):
@@ -398,6 +398,17 @@ class Interp:
             if base is None:
                 raise Raised("AttributeError")
             raise Undecided("method %s of %r" % (f.attr, base))
+        if isinstance(f, ast.Name) and f.id == "getattr" and len(e.args) == 2 and not e.keywords and f.id not in env:
+            # getattr(X, <name>): the member the (evaluated) name denotes
+            base = self.ev(e.args[0], env, module)
+            nm = self.ev(e.args[1], env, module)
+            if not isinstance(nm, str):
+                raise Undecided("getattr with a name that is not a string")
+            if isinstance(base, ClassInfo) or (isinstance(base, tuple) and base and base[0] == "cls"):
+                c = base if isinstance(base, ClassInfo) else base[1]
+                if self.prog.lookup(c, nm) is not None:
+                    return BoundMethod(c, nm)
+            return self.member(base, nm, module)
         fn = self.ev(f, env, module)
         args = [self.ev(a, env, module) for a in e.args]
         if isinstance(fn, Closure):
@@ -414,6 +425,14 @@ class Interp:
                 return int(args[0])
             if fn[1] == "str":
                 return str(args[0])
+            if fn[1] in ("iter", "list", "tuple") and len(args) == 1 and isinstance(args[0], (list, tuple)):
+                return list(args[0])   # (an iterator over a list read as the list: only its first element is ever asked for)
+            if fn[1] == "next" and args and isinstance(args[0], (list, tuple)):
+                if args[0]:
+                    return args[0][0]
+                if len(args) > 1:
+                    return args[1]
+                raise Raised("StopIteration")
         raise Undecided("call `%s`" % ast.unparse(e)[:50])
 
 
